@@ -41,8 +41,10 @@ def gen_script(rng, max_ops, profile):
             lines.append('reg %d %d' % (p, dynflags[p]))
         else:
             lines.append('reg %d' % p)
+    vc = 0
     if profile.get('verchunk'):
-        lines.append('verchunk %d' % rng.pick(profile['verchunk']))
+        vc = rng.pick(profile['verchunk'])
+        lines.append('verchunk %d' % vc)
     deps = {}
     if profile.get('deps') and rng.chance(profile['deps'], 100):
         for _ in range(rng.range(1, 3)):
@@ -290,6 +292,33 @@ def gen_script(rng, max_ops, profile):
                 st.n += 1
             if rng.chance(2, 3):
                 lines.append('runjob %d %d' % (rng.below(njobs), rng.below(2)))
+        elif choice == 'bulk':
+            # fill one archetype to k*cs + r entities (r = 0, 1, 2), let the jobs catch up, then remove an early member:
+            # the swap-remove shrinks the archetype across a version-chunk boundary
+            if depth or not njobs or not vc or vc > 8:
+                continue
+            hs = [h for h in live_handles() if st.comps.get(h) and not st.shared.get(h)]
+            cs = sorted(st.comps[rng.pick(hs)]) if hs and rng.chance(2, 3) else sorted(set(rng.pick(pals) for _ in range(rng.range(1, 2))))
+            cs = sorted(closure(cs))
+            same = [k for k in live_handles() if sorted(st.comps.get(k, ())) == cs and not st.shared.get(k)]
+            target = rng.range(1, 3) * vc + rng.below(3)
+            for _ in range(max(0, target - len(same))):
+                lines.append('create 0 %s' % ' '.join(map(str, cs)))
+                st.comps[st.n] = set(cs)
+                st.shared[st.n] = set()
+                same.append(st.n)
+                st.n += 1
+            for j in range(njobs):
+                if rng.chance(2, 3):
+                    lines.append('runjob %d %d' % (j, rng.below(2)))
+            cand = [k for k in same if k not in st.marked]
+            if cand:
+                k = cand[rng.below(min(len(cand), 2 * vc))]
+                lines.append('destroynow 0 #%d' % k)
+                st.comps.pop(k, None)
+            for j in range(njobs):
+                if rng.chance(1, 2):
+                    lines.append('runjob %d %d' % (j, rng.below(2)))
         elif choice == 'runjob':
             if depth == 0 and njobs:
                 mode = rng.below(2)
@@ -412,7 +441,7 @@ def profile(name):
             p['jobs'] = [{'reqs': [(0, 1)], 'check': []}, {'reqs': [(0, 0), (1, 3)], 'check': []}, {'reqs': [(0, 1), (2, 1)], 'check': []},
                          {'reqs': [(0, 1)], 'check': [0]}, {'reqs': [(1, 0), (0, 2)], 'check': [1]}]
         p['weights'] = {'create': 26, 'destroynow': 9, 'destroy': 3, 'assign': 8, 'remove': 6, 'set': 12, 'get': 6,
-                        'clone': 2, 'update': 6, 'cleararch': 1, 'lock': 0, 'unlock': 0, 'runjob': 22, 'burst': 0 if name == 'C04' else 7}
+                        'clone': 2, 'update': 6, 'cleararch': 1, 'lock': 0, 'unlock': 0, 'runjob': 22, 'burst': 0 if name == 'C04' else 7, 'bulk': 0 if name == 'C04' else 2}
     elif name == 'C13':
         p['deps'] = 100
         p['pals'] = [0, 1, 2, 3, 5, 8, 9]
